@@ -17,26 +17,35 @@ fn six(a: &Variable, b: &Variable) -> [Option<bool>; 6] {
 }
 fn b(x: Option<bool>) -> bool { match x { Some(v) => v, None => { kani::assert(false, "comparison of two numbers is Some"); false } } }
 
-/// `!=` is the negation of `==`; `==` symmetric and reflexive; ordering operators follow the f64 order of the operands.
+/// `!=` is the negation of `==`; `==` is symmetric and reflexive; numerically equal values are ==
 #[kani::proof]
-fn c10_numbers_algebra() {
+fn c10_numbers_eq_algebra() {
     let a = Variable::Number(any_num());
     let c = Variable::Number(any_num());
-    let r = six(&a, &c); let s = six(&c, &a); let t = six(&a, &a);
-    let (eq, ne, lt, le, gt, ge) = (b(r[0]), b(r[1]), b(r[2]), b(r[3]), b(r[4]), b(r[5]));
+    let eq = b(a.compare(&Comparator::Equal, &c)); let ne = b(a.compare(&Comparator::NotEqual, &c));
     kani::assert(eq == !ne, "!= is the negation of ==");
-    kani::assert(eq == b(s[0]), "== is symmetric");
-    kani::assert(b(t[0]), "== is reflexive");
-    kani::assert(!b(t[2]) && !b(t[4]), "a < a and a > a are false");
-    let (x, y) = (a.as_number(), c.as_number());
-    match (x, y) {
+    kani::assert(eq == b(c.compare(&Comparator::Equal, &a)), "== is symmetric");
+    kani::assert(b(a.compare(&Comparator::Equal, &a)), "== is reflexive");
+    match (a.as_number(), c.as_number()) {
+        (Some(x), Some(y)) => { if x == y { kani::assert(eq, "numerically equal values are =="); } kani::cover!(x == y && eq, "eq reached"); kani::cover!(x != y && !eq, "ne reached"); }
+        _ => kani::assert(false, "numbers convert to f64"),
+    }
+    std::mem::forget(a); std::mem::forget(c);
+}
+
+/// ordering operators follow the f64 order of the operands; a<b iff b>a; irreflexive
+#[kani::proof]
+fn c10_numbers_order() {
+    let a = Variable::Number(any_num());
+    let c = Variable::Number(any_num());
+    let lt = b(a.compare(&Comparator::LessThan, &c)); let gt = b(a.compare(&Comparator::GreaterThan, &c));
+    kani::assert(!b(a.compare(&Comparator::LessThan, &a)) && !b(a.compare(&Comparator::GreaterThan, &a)), "a < a and a > a are false");
+    match (a.as_number(), c.as_number()) {
         (Some(x), Some(y)) => {
             kani::assert(lt == (x < y), "< is the numeric order");
             kani::assert(gt == (x > y), "> is the numeric order");
-            kani::assert(lt == b(s[4]), "a<b iff b>a");
-            if x == y { kani::assert(eq, "numerically equal values are =="); }
+            kani::assert(lt == b(c.compare(&Comparator::GreaterThan, &a)), "a<b iff b>a");
             kani::cover!(x < y, "lt reached");
-            kani::cover!(x == y && eq, "eq reached");
         }
         _ => kani::assert(false, "numbers convert to f64"),
     }
